@@ -49,12 +49,12 @@ PROPS = {
         "assumptions": ["reads do not fail", "a failing write lands a prefix of its bytes"],
     },
     "C11": {
-        "suites": ["codec", "segment"],
+        "suites": ["codec", "segment", "opendamage", "sizes"],
         "partial": "the universal claim over all byte strings is carried by totality and bound theorems about the model (decoder, scan, read path); that the Go code has no panic site outside the modelled ones is established by the malformed-input stream of the codec/segment suites (run in-process with recover), not by proof; Open-level damage classes and handle release after a failed Open are exercised by the wal-level suites when present",
         "assumptions": ["reads do not fail with I/O errors in the model", "Go slice/alloc semantics as modelled"],
     },
     "C12": {
-        "suites": ["codec", "wal"],
+        "suites": ["codec", "wal", "conc"],
         "partial": "time.Time is modelled by its MarshalBinary wire form (Go stdlib, trusted); pool aliasing is carried by the generated fact decoderBytesCopies plus the monitor that scribbles over the input buffer after Decode; StoreLogs/GetLog round trip and the codec-ID matrix across reopen are carried by the wal suite (correspondence + monitor)",
         "assumptions": ["time.Time.MarshalBinary/UnmarshalBinary as in Go 1.23 (wire form 15/16 bytes)", "bytes.Buffer.Write never fails"],
     },
@@ -64,7 +64,7 @@ PROPS = {
         "assumptions": ["VFS Delete = unlink + directory fsync (checked on the real layer by C07)"],
     },
     "C15": {
-        "suites": ["sizes", "segment"],
+        "suites": ["sizes", "segment", "conc"],
         "partial": "the theorem is about the byte-level segment model under the no-wrap side conditions RunWF (files below 4 GiB, the documented limit; offsets are uint32 in code and model); the 64 MiB cases run on the real code with real payloads and are compared with the size-level functions of the model (64 MiB byte lists are not materialised in Lean)",
         "assumptions": ["segment files stay below 4 GiB"],
     },
